@@ -216,7 +216,11 @@ func (r *runner) do(req *Req) (*Resp, string, string) {
 		}
 		r.w = w
 	}
-	resp, oc, detail := r.w.do(req, r.lim)
+	// "time bounded by the size of the template": the CPU budget grows with the size of the request (1 s per 50 kB of
+	// template, four entry points each), so that a megabyte of text is not a hang because it is a megabyte
+	lim := r.lim
+	lim.cpu += time.Duration(len(req.Tpl)/50000) * time.Second
+	resp, oc, detail := r.w.do(req, lim)
 	if oc != ocOK {
 		r.w = nil
 		r.restarts++
